@@ -1,1 +1,239 @@
-/- property theorems for C18 (filled in below) -/
+/-
+C18 — the indefinite linear-algebra helpers meet their stated contracts.
+Only property theorems and non-vacuity examples live here; helper lemmas are in
+`GT.Lemmas.GramSchmidt`, `GT.Lemmas.FrameCompletion`, `GT.Lemmas.Diag`, `GT.Lemmas.Arcs`.
+Models: `GT.Model.GramSchmidt`, `GT.Model.Diag`, `GT.Model.Arcs`.
+
+LAPACK routines are contracts: `utils.kernel` is the parameter `ker` (assumed: its rows are
+orthogonal to the given rows), `eigh` the pair `(eigs, U)` (assumed `Uᵀ B U = diag eigs`,
+`Uᵀ U = 1`), `svd` the triple `(u, Σ, vh)`.  Square roots are a supplied `r` with `IsSqrt r`.
+-/
+import GT.Lemmas.FrameCompletion
+import GT.Lemmas.Diag
+import GT.Lemmas.Arcs
+import Mathlib.Analysis.SpecialFunctions.Sqrt
+import Mathlib.Tactic.NormNum
+
+open Finset BigOperators Matrix
+
+set_option linter.unusedSectionVars false
+
+namespace GT.C18
+open GT GT.Iso GT.GS GT.Diag GT.Arcs
+
+section gs
+variable {K : Type*} [Field K] [LinearOrder K] [IsStrictOrderedRing K] {n : ℕ} {r : K → K}
+
+/-- `indefinite_orthogonalize(F, rows)` for any symmetric `F`: if no intermediate row is null,
+the result has the same number of rows, its rows are pairwise `F`-orthogonal with square-norm
+`±1`, and for every `j` its first `j` rows span the same subspace as the first `j` input rows -/
+theorem gramSchmidt_orthogonal (hr : IsSqrt r) {F : Matrix (Fin n) (Fin n) K} (hF : Fᵀ = F)
+    (rows : List (Fin n → K)) (hnull : ∀ x ∈ gs F rows, bil F x x ≠ 0) :
+    (indefiniteOrthogonalize r F rows).length = rows.length ∧
+    (indefiniteOrthogonalize r F rows).Pairwise (fun a b => bil F a b = 0) ∧
+    (∀ y ∈ indefiniteOrthogonalize r F rows, bil F y y = 1 ∨ bil F y y = -1) ∧
+    ∀ j, Submodule.span K {u | u ∈ (indefiniteOrthogonalize r F rows).take j}
+        = Submodule.span K {u | u ∈ rows.take j} :=
+  indefiniteOrthogonalize_spec' hr hF rows hnull
+
+/-- `normalize`: a non-null vector gets square-norm `+1` or `−1` according to the sign of its
+square-norm (and is only rescaled) -/
+theorem normalizeRows_spec (hr : IsSqrt r) (F : Matrix (Fin n) (Fin n) K) (x : Fin n → K) (hx : bil F x x ≠ 0) :
+    bil F (normalizeVec r F x) (normalizeVec r F x) = (if 0 < bil F x x then 1 else -1) ∧
+    ∃ c : K, c ≠ 0 ∧ normalizeVec r F x = c • x :=
+  ⟨bil_normalizeVec_self hr F x hx, nfac r F x, nfac_ne_zero hr F x, normalizeVec_eq r F x⟩
+
+/-- `find_isometry(F, partial)` for any symmetric `F`, under the kernel contract (`ker` is
+`F`-orthogonal to `partial`) and with no null intermediate row: `k + |ker|` rows, pairwise
+`F`-orthogonal with square-norm `±1` — i.e. `M F Mᵀ` is diagonal with entries `±1` —, and the
+first `j ≤ k` rows span the first `j` rows of `partial` -/
+theorem findIsometry_spec (hr : IsSqrt r) {F : Matrix (Fin n) (Fin n) K} (hF : Fᵀ = F)
+    (partialMap ker : List (Fin n → K))
+    (hker : ∀ p ∈ partialMap, ∀ k ∈ ker, bil F p k = 0)
+    (hnull : ∀ x ∈ gs F partialMap ++ gs F ker, bil F x x ≠ 0) :
+    (findIsometry r F partialMap ker).length = partialMap.length + ker.length ∧
+    (findIsometry r F partialMap ker).Pairwise (fun a b => bil F a b = 0) ∧
+    (∀ y ∈ findIsometry r F partialMap ker, bil F y y = 1 ∨ bil F y y = -1) ∧
+    ∀ j ≤ partialMap.length, Submodule.span K {u | u ∈ (findIsometry r F partialMap ker).take j}
+        = Submodule.span K {u | u ∈ partialMap.take j} :=
+  findIsometry_spec' hr hF partialMap ker hker hnull
+
+/-- `find_isometry(minkowski, x :: rest)` with `x` timelike, under the kernel contract and with
+rows in general position (Gram–Schmidt never produces the zero vector): the stacked matrix is an
+isometry — `M J Mᵀ = J` including the sign pattern `(−,+,…,+)`.  No non-nullity hypothesis is
+needed: the form is positive definite on `x^⊥` (`pos_of_orth_timelike`) -/
+theorem findIsometry_isIso (hr : IsSqrt r) (x : Fin (n + 1) → K) (rest ker : List (Fin (n + 1) → K))
+    (hx : mink x x < 0)
+    (hker : ∀ p ∈ x :: rest, ∀ k ∈ ker, mink p k = 0)
+    (hnz : ∀ u ∈ gs (minkJ n) (x :: rest) ++ gs (minkJ n) ker, u ≠ 0)
+    (hlen : (findIsometry r (minkJ n) (x :: rest) ker).length = n + 1) :
+    IsIso (rowsMatrix (findIsometry r (minkJ n) (x :: rest) ker) hlen) :=
+  findIsometry_isIso' hr x rest ker hx hker hnz hlen
+
+/-- `make_orientation_preserving`: a diagonal Gram matrix `M F Mᵀ` (in particular `= J`) is
+unchanged and the determinant becomes positive -/
+theorem makeOriented_spec {m : ℕ} (F M : Matrix (Fin (m + 1)) (Fin (m + 1)) K) (d : Fin (m + 1) → K)
+    (h : M * F * Mᵀ = Matrix.diagonal d) (hdet : M.det ≠ 0) :
+    makeOriented M * F * (makeOriented M)ᵀ = Matrix.diagonal d ∧ 0 < (makeOriented M).det :=
+  makeOriented_spec' F M d h hdet
+
+/-- `make_orientation_preserving` of an isometry is an isometry of positive determinant -/
+theorem makeOriented_isIso {M : Matrix (Fin (n + 1)) (Fin (n + 1)) K} (h : IsIso M) :
+    IsIso (makeOriented M) ∧ 0 < (makeOriented M).det := by
+  have hdet : M.det ≠ 0 := fun h0 => by have := isIso_det_sq h; rw [h0] at this; simp at this
+  exact makeOriented_spec' (minkJ n) M (minkDiag n) h hdet
+
+/-- `orthogonal_complement(vectors, F)` under the kernel contract: the returned rows are
+`F`-orthogonal to every given vector, pairwise `F`-orthogonal, of square-norm `±1` -/
+theorem orthogonalComplement_spec (hr : IsSqrt r) {F : Matrix (Fin n) (Fin n) K} (hF : Fᵀ = F)
+    (vectors ker : List (Fin n → K)) (hker : ∀ v ∈ vectors, ∀ k ∈ ker, bil F v k = 0)
+    (hnull : ∀ x ∈ gs F ker, bil F x x ≠ 0) :
+    (∀ v ∈ vectors, ∀ y ∈ orthogonalComplement r F ker, bil F v y = 0) ∧
+    (orthogonalComplement r F ker).Pairwise (fun a b => bil F a b = 0) ∧
+    (∀ y ∈ orthogonalComplement r F ker, bil F y y = 1 ∨ bil F y y = -1) ∧
+    (orthogonalComplement r F ker).length = ker.length := by
+  obtain ⟨l, p, nn, _⟩ := indefiniteOrthogonalize_spec' hr hF ker hnull
+  refine ⟨?_, p, nn, l⟩
+  intro v hv y hy
+  unfold orthogonalComplement indefiniteOrthogonalize normalizeRows at hy
+  obtain ⟨g, hg, rfl⟩ := List.mem_map.1 hy
+  rw [normalizeVec_eq, bil_smul_right]
+  have := gs_mem F (orthSub F {v}) ker (fun k hk => by
+    rw [mem_orthSub]; intro p hp
+    have : p = v := by simpa using hp
+    subst this; exact hker p hv k hk) g hg
+  rw [this v (by simp), mul_zero]
+
+end gs
+
+/-- the array-backed Gram–Schmidt the driver executes denotes the model's -/
+theorem gsD_eq_gs {K : Type} [Field K] [Inhabited K] {n : ℕ} (F : Matrix (Fin n) (Fin n) K)
+    (rows : List (DVec n K)) : (gsD F rows).map DVec.toFn = gs F (rows.map DVec.toFn) := gsD_toFn F rows
+
+section diag
+variable {K : Type*} [Field K] [LinearOrder K] [IsStrictOrderedRing K] {n : ℕ} {r : K → K}
+
+/-- `diagonalize_form(B, order_eigenvalues, reverse)` under the `eigh` contract
+(`Uᵀ B U = diag eigs`, `Uᵀ U = 1`, no zero eigenvalue): with `σ` the permutation computed by the
+code (`argsort` of the eigenvalues or of the Minkowski keys, reversed on request),
+`Wᵀ B W = diag(±1)` with entry `i` the sign of `eigs (σ i)`, `Winv` is the two-sided inverse of `W`,
+and the signs come in the requested order: for `"signed"` non-decreasing eigenvalue (negatives
+first), for `"minkowski"` the rarer sign first (negatives on ties); `reverse` reverses -/
+theorem diagonalizeForm_spec (hr : IsSqrt r) (B U : Matrix (Fin n) (Fin n) K) (eigs : Fin n → K)
+    (h1 : Uᵀ * B * U = Matrix.diagonal eigs) (h2 : Uᵀ * U = 1) (hnz : ∀ i, eigs i ≠ 0) (mink reverse : Bool) :
+    let σ := orderFn (formOrder eigs mink reverse) (formOrder_length eigs mink reverse)
+    let W := (diagonalizeForm r eigs U σ).1
+    let Winv := (diagonalizeForm r eigs U σ).2
+    Wᵀ * B * W = Matrix.diagonal (fun i => if 0 < eigs (σ i) then 1 else -1) ∧
+    W * Winv = 1 ∧ Winv * W = 1 ∧
+    ∀ i j : Fin n, i < j →
+      (mink = false → reverse = false → eigs (σ i) ≤ eigs (σ j)) ∧
+      (mink = false → reverse = true → eigs (σ j) ≤ eigs (σ i)) ∧
+      (mink = true →
+        if (Finset.univ.filter fun i => 0 < eigs i).card < (Finset.univ.filter fun i => eigs i < 0).card
+        then (if reverse then (0 < eigs (σ i) → 0 < eigs (σ j)) else (0 < eigs (σ j) → 0 < eigs (σ i)))
+        else (if reverse then (eigs (σ i) < 0 → eigs (σ j) < 0) else (eigs (σ j) < 0 → eigs (σ i) < 0))) := by
+  intro σ W Winv
+  have hσ : Function.Bijective σ := orderFn_bijective _ _ (formOrder_perm eigs mink reverse)
+  obtain ⟨a1, a2, a3⟩ := diagonalizeForm_algebra hr B U eigs h1 h2 hnz σ hσ
+  refine ⟨a1, a2, a3, ?_⟩
+  intro i j hij
+  have hs := formOrder_sorted eigs mink reverse i j hij
+  simp only at hs
+  refine ⟨?_, ?_, ?_⟩
+  · intro hm hrv; subst hm; subst hrv; simpa using hs
+  · intro hm hrv; subst hm; subst hrv; simpa using hs
+  · intro hm; subst hm
+    cases reverse with
+    | false =>
+      simp only [if_true, Bool.false_eq_true, if_false] at hs ⊢
+      exact (minkowskiKey_le_iff eigs hnz _ _).1 hs
+    | true =>
+      simp only [if_true] at hs ⊢
+      exact (minkowskiKey_le_iff eigs hnz _ _).1 hs
+
+/-- `svd_kernel` / `utils.kernel` under the SVD contract: the returned columns are annihilated
+by the matrix, orthonormal, and there are `kernel_dim = max(n−m,0) + #{s < tol}` of them -/
+theorem svdKernel_spec {m : ℕ} (tol : K) (s : List K) (A : Matrix (Fin m) (Fin n) K) (U : Matrix (Fin m) (Fin m) K)
+    (Sg : Matrix (Fin m) (Fin n) K) (Vh : Matrix (Fin n) (Fin n) K)
+    (hA : A = U * Sg * Vh) (hV : Vh * Vhᵀ = 1)
+    (hz : ∀ (i : Fin n), n - svdKernelDim tol m n s ≤ i.val → ∀ a, Sg a i = 0) :
+    (∀ v ∈ svdKernelRows tol m s Vh, A *ᵥ v = 0) ∧
+    (∀ v ∈ svdKernelRows tol m s Vh, dot v v = 1) ∧
+    (svdKernelRows tol m s Vh).Pairwise (fun v w => dot v w = 0) ∧
+    (svdKernelRows tol m s Vh).length = min (svdKernelDim tol m n s) n :=
+  svdKernelRows_spec tol s A U Sg Vh hA hV hz
+
+/-- `sphere_through` for `d+1` points of `K^d` in general position (`t_pts` invertible): every
+point is at distance `radius` from `center` (`radius ≥ 0`, `radius² = ‖p_i − center‖²`) -/
+theorem sphereThrough_spec {d : ℕ} (hr : IsSqrt r) (pts : Fin (d + 1) → Fin d → K) (hT : IsUnit (sphereT pts).det)
+    (i : Fin (d + 1)) :
+    0 ≤ (sphereThrough r pts).2 ∧
+    (sphereThrough r pts).2 * (sphereThrough r pts).2 = nsq (fun k => pts i k - (sphereThrough r pts).1 k) := by
+  rw [sphereThrough_equidistant r pts hT i]
+  exact hr _ (nsq_nonneg _)
+
+end diag
+
+section arcs
+variable {K : Type*} [Field K] [LinearOrder K] [IsStrictOrderedRing K]
+
+/-- `short_arc` on angles in `(−2π, 2π)`: same two angles modulo `2π` (possibly swapped) and the
+counter-clockwise arc from the first to the second has length `≤ π` -/
+theorem shortArc_spec {pi : K} (hpi : 0 < pi) (a b : K) (ha : -(2 * pi) < a ∧ a < 2 * pi)
+    (hb : -(2 * pi) < b ∧ b < 2 * pi) :
+    ((CongPi pi (shortArc pi (a, b)).1 a ∧ CongPi pi (shortArc pi (a, b)).2 b) ∨
+     (CongPi pi (shortArc pi (a, b)).1 b ∧ CongPi pi (shortArc pi (a, b)).2 a)) ∧
+    ∃ t, 0 ≤ t ∧ t ≤ pi ∧ CongPi pi ((shortArc pi (a, b)).2 - (shortArc pi (a, b)).1) t :=
+  shortArc_spec' hpi a b ha hb
+
+/-- `right_to_left`: same pair (possibly swapped), and `cos` of the second is at most `cos` of the first -/
+theorem rightToLeft_spec (cs : K → K) (a b : K) :
+    (rightToLeft cs (a, b) = (a, b) ∨ rightToLeft cs (a, b) = (b, a)) ∧
+    cs (rightToLeft cs (a, b)).2 ≤ cs (rightToLeft cs (a, b)).1 :=
+  rightToLeft_spec' cs a b
+
+/-- `arc_include` on angles in `[−π, π]`: same pair (possibly swapped) and the reference angle
+lies on the counter-clockwise arc from the first to the second -/
+theorem arcInclude_spec {pi : K} (hpi : 0 < pi) (a b ref : K) (ha : -pi ≤ a ∧ a ≤ pi) (hb : -pi ≤ b ∧ b ≤ pi)
+    (href : -pi ≤ ref ∧ ref ≤ pi) :
+    (arcInclude pi (a, b) ref = (a, b) ∨ arcInclude pi (a, b) ref = (b, a)) ∧
+    ∃ s t, 0 ≤ s ∧ s ≤ t ∧ t ≤ 2 * pi ∧
+      CongPi pi (ref - (arcInclude pi (a, b) ref).1) s ∧
+      CongPi pi ((arcInclude pi (a, b) ref).2 - (arcInclude pi (a, b) ref).1) t :=
+  arcInclude_spec' hpi a b ref ha hb href
+
+end arcs
+
+/-! ## non-vacuity -/
+
+/-- `Real.sqrt` is a root function -/
+example : IsSqrt Real.sqrt := fun x hx => ⟨Real.sqrt_nonneg x, Real.mul_self_sqrt hx⟩
+
+/-- a symmetric indefinite form and rows whose Gram–Schmidt rows are non-null:
+`F = diag(−1,1,1)`, rows `(2,1,0)`, `(0,1,1)` give `(2,1,0)` (norm −3), `(2/3,4/3,1)` (norm 7/3) -/
+example : (minkJ 2 : Matrix (Fin 3) (Fin 3) ℚ)ᵀ = minkJ 2 ∧
+    ∀ x ∈ gs (minkJ 2) [(![2, 1, 0] : Fin 3 → ℚ), ![0, 1, 1]], bil (minkJ 2) x x ≠ 0 := by
+  refine ⟨minkJ_transpose, ?_⟩
+  intro x hx
+  simp only [gs, gsStep, gproj, List.foldl_cons, List.foldl_nil, List.nil_append, List.cons_append,
+    List.mem_cons, List.not_mem_nil, or_false] at hx
+  rcases hx with rfl | rfl <;>
+    simp [bil_minkJ, mink, dot, Fin.sum_univ_succ, Fin.tail] <;> norm_num
+
+/-- an `eigh` output with no zero eigenvalue: `B = diag(2,−3)`, `U = 1` -/
+example : (1 : Matrix (Fin 2) (Fin 2) ℚ)ᵀ * Matrix.diagonal ![2, -3] * 1 = Matrix.diagonal ![2, -3] ∧
+    ∀ i, (![2, -3] : Fin 2 → ℚ) i ≠ 0 := by
+  refine ⟨by simp, fun i => ?_⟩
+  fin_cases i <;> simp
+
+/-- three points of the plane in general position -/
+example : IsUnit (sphereT (fun i => (![![0, 0], ![1, 0], ![0, 1]] : Fin 3 → Fin 2 → ℚ) i)).det := by
+  have : sphereT (fun i => (![![0, 0], ![1, 0], ![0, 1]] : Fin 3 → Fin 2 → ℚ) i) = 1 := by
+    ext i j; fin_cases i <;> fin_cases j <;> simp [sphereT]
+  rw [this]; simp
+
+/-- angles in the stated ranges exist for an abstract `π` (here `π = 3` in ℚ) -/
+example : (0 : ℚ) < 3 ∧ (-(2 * 3) < (5 : ℚ) ∧ (5 : ℚ) < 2 * 3) ∧ (-3 ≤ (-2 : ℚ) ∧ (-2 : ℚ) ≤ 3) := by norm_num
+
+end GT.C18
